@@ -150,6 +150,9 @@ def sigMenu (k : Nat) : Option Sig :=
   | 10 => some ⟨[.typedArray (.typedArray .number)], none⟩
   | 11 => some ⟨[.typedArray (.union [.string, .number])], none⟩
   | 12 => some ⟨[.typedArray (.typedArray (.union [.null, .string]))], some (.typedArray .any)⟩
+  | 13 => some ⟨[.array], some .string⟩
+  | 14 => some ⟨[.any, .object], some .number⟩
+  | 15 => some ⟨[.union [.array, .string]], some .array⟩
   | _ => some ⟨[], none⟩
 
 def parseRegOp (s : String) : Option RegOp :=
